@@ -284,6 +284,31 @@ func buildOn(p mq.Packet, a *ref.AP, t *sim.Tape, ctor bool) (mq.Packet, *Recipe
 		rec.Origin = "zero"
 	}
 	ops := OpsFor(a)
+	if t != nil && t.Bool(1, 4) {
+		// setters called EXPLICITLY with the zero value the field already has
+		// (SetReasonCode(Success), SetQoS(0), SetRetain(false), SetUsername("")): the
+		// packet's values are the same as without the call
+		has := map[string]bool{}
+		for _, o := range ops {
+			has[o.Kind] = true
+		}
+		var cands []Op
+		switch a.Type {
+		case ref.Connect:
+			cands = []Op{{Kind: "cleanstart"}, {Kind: "keepalive"}, {Kind: "clientid", B: []byte{}}, {Kind: "username", B: []byte{}}, {Kind: "password", B: []byte{}}}
+		case ref.ConnAck:
+			cands = []Op{{Kind: "sessionpresent"}, {Kind: "reason"}}
+		case ref.Publish:
+			cands = []Op{{Kind: "qos"}, {Kind: "dup"}, {Kind: "retain"}, {Kind: "topic", B: []byte{}}, {Kind: "payload", B: []byte{}}}
+		case ref.PubAck, ref.PubRec, ref.PubRel, ref.PubComp, ref.Disconnect, ref.Auth:
+			cands = []Op{{Kind: "reason"}}
+		}
+		for _, z := range cands {
+			if !has[z.Kind] && t.Bool(1, 2) {
+				ops = append(ops, z)
+			}
+		}
+	}
 	if ctor && t != nil && a.Type == ref.Publish && t.Bool(1, 4) {
 		// the convenience constructor mq.Pub(qos, topic, payload) instead of
 		// NewPublish + three setters
